@@ -61,6 +61,9 @@ mod definitions;
 mod pretty_print;
 mod chemistry;
 
+#[cfg(mathcat_verif)]
+pub mod verif;
+
 pub mod shim_filesystem; // really just for override_file_for_debugging_rules, but the config seems to throw it off
 pub use interface::*;
 
